@@ -385,6 +385,11 @@ theorem tx_special (c : JCtx) : ∀ (e : Expr), JsOkE e = true →
   | .the .special k [], h => by
     have hk : k < 6 := by simpa [JsOkE] using h
     simp [toJsE, toJsEs, toJsThe, hk, jid, txJ, JE.needsParen, S, special, isAsciiDigit]
+  | .mcall o m as, h => by
+    obtain ⟨n, hn, hte, _⟩ := recvJsOk_spec c o m as (by simp only [JsOkE, Bool.and_eq_true] at h; exact h.1.1)
+    rw [hte]
+    simp only [txJ, np_id, np_call, Bool.false_eq_true, if_false, List.append_assoc]
+    exact head_append_some _ _ _ (jsIdLex_head n (jsIdOk_lex n hn.1))
   | .key v, h => by
     by_cases hd : v = "date".toList ∨ v = "time".toList
     · simp only [toJsE, hd, if_true]
@@ -489,6 +494,37 @@ theorem js_owner (cls : Leaf) (w : Str) (hcls : (cls = .sprite ∧ w = S "sprite
       jsReceiver (w ++ S "(" ++ nm ++ S ")") = w ++ S "(" ++ nm ++ S ")" := by
   rcases hcls with ⟨rfl, rfl⟩ | ⟨rfl, rfl⟩ | ⟨rfl, rfl⟩ <;>
     refine ⟨by simp [js, leafJs, Name.str, S], by simp [S], by simp [jsReceiver, S, isAsciiDigit]⟩
+
+/-- a method call `x(#m, a, b)` on a local / parameter receiver: the symbol is the LAST stored operand -/
+theorem js_mcall_core (c : JCtx) (x m : Spec.Name) (as : List Expr) (hx1 : jsIdOk x = true) (hx3 : specialCall x = false)
+    (hx4 : listFn x = false) (nm : Str) (p p' ps : Int) (wr : Bool)
+    (ops : List Node) (ind : Nat) (htx : Texts true ind ops (txL c as)) :
+    js true false (.callFn (.s x) p (.loadList nm p' (ops.reverse ++ [.sym (.s m) ps false])) true false wr .none) ind =
+      .ok (.s (txJ (.call (.id x) (jcall "symbol" [.sstr m] :: toJsEs c as)))) := by
+  have hnew := jsIdOk_not_kw x hx1 "new" (by decide)
+  have hret := jsIdOk_not_kw x hx1 "return" (by decide)
+  have hsym : js true false (.sym (.s m) ps false) ind = .ok (.s (S "symbol('" ++ m ++ S "')")) := by
+    simp [js, Name.asStr, Except.map]
+  have ht := (htx.reverse).append (Texts.cons hsym Texts.nil)
+  have hne : (ops.reverse ++ [Node.sym (.s m) ps false]).isEmpty = false := by simp
+  have hl : jsStrs true (if (ops.reverse ++ [Node.sym (.s m) ps false]).isEmpty then false else listFn x)
+      (ops.reverse ++ [Node.sym (.s m) ps false]) ind = .ok ((txL c as).reverse ++ [S "symbol('" ++ m ++ S "')"]) := by
+    rw [hne]
+    simp only [Bool.false_eq_true, if_false, hx4]
+    exact jsStrs_texts true false ind _ _ ht (by intro h; cases h)
+  rw [js_call_plain x p p' _ _ true false wr ind _ hx3 hnew hret hl]
+  have e : (txL c as).reverse ++ [S "symbol('" ++ m ++ S "')"] = ((S "symbol('" ++ m ++ S "')") :: txL c as).reverse := by simp
+  rw [e, commaJoinRev_reverse]
+  have e2 : joinWith (S ", ") ((S "symbol('" ++ m ++ S "')") :: txL c as) = txArgs (jcall "symbol" [.sstr m] :: toJsEs c as) := by
+    cases has' : as with
+    | nil => simp [txL, toJsEs, joinWith, txArgs, jcall, txJ, JE.needsParen, S]
+    | cons a1 as1 =>
+      have := joinWith_txL c (a1 :: as1)
+      simp only [txL, toJsEs] at this
+      simp only [txL, toJsEs, joinWith, txArgs, this]
+      simp [jcall, txJ, txArgs, JE.needsParen, S]
+  rw [e2]
+  simp only [txJ, np_id, Bool.false_eq_true, if_false]
 
 mutual
 /-- **J-text** (expressions): `generate_js` of the image of `e`, as called by the script wrappers (`factory_method = True`),
@@ -600,7 +636,19 @@ theorem js_emb (c : JCtx) : ∀ (e : Expr), JsOkE e = true → ∀ (n : Node), E
     simp [toJsE, jcall, txJ, JE.needsParen, S]
   | .float _ _, hf, _, _, _ => by simp [JsOkE] at hf
   | .me, hf, _, _, _ => by simp [JsOkE] at hf
-  | .mcall _ _ _, hf, _, _, _ => by simp [JsOkE] at hf
+  | .mcall o m as, hf, n, h, ind => by
+    simp only [JsOkE, Bool.and_eq_true] at hf
+    obtain ⟨⟨hro, hm⟩, has⟩ := hf
+    obtain ⟨x, ⟨hx1, hx2, hx3, hx4⟩, hte, hmr, hox⟩ := recvJsOk_spec c o m as hro
+    simp only [Emb] at h
+    obtain ⟨p, p', ps, rc, ops, nm, hnm, rfl, hops, hrc⟩ := h
+    rw [hmr] at hnm
+    simp only [Option.some.injEq] at hnm
+    subst hnm
+    have hrcn : rc = .none := by rcases hox with rfl | rfl <;> exact hrc
+    subst hrcn
+    rw [hte]
+    exact js_mcall_core c x m as hx1 hx3 hx4 (S "<load_list>") p p' ps false ops ind (js_embL c as has ops hops ind)
   | .plist as, hf, n, h, ind => by
     obtain ⟨p, p', ops, rfl, hops⟩ := h
     have has : JsOkL as = true := by simpa [JsOkE] using hf
